@@ -1,104 +1,24 @@
 ------------------------------- MODULE Stats -------------------------------
 (***************************************************************************)
-(* X07 - byte and piece accounting reported to the user is conserved.      *)
-(*                                                                         *)
-(* Code: torrent/torrent_stats.go (Stats), torrent_messagehandler.go       *)
-(* (handlePieceMessage, BlockUploaded), torrent_write.go                   *)
-(* (handlePieceWriteDone), torrent_webseed.go (handleWebseedPieceResult),  *)
-(* session_stats.go (Session.Stats, updateStats = the resume write),       *)
-(* session.go (Close), torrent.go (newTorrent: counters seeded from the    *)
-(* resume record), session_load.go.                                        *)
-(*                                                                         *)
-(* PART 1 (observable, shared with Trace_Stats): the obligations as        *)
-(* predicates over  ground truth kept by the environment  x  numbers       *)
-(* reported by Stats().  Ground truth is an interval [lo, hi] per counter  *)
-(* (the design-level machine below knows it exactly: lo = hi; the driver   *)
-(* of the real code knows exactly at quiescent points, and only an upper   *)
-(* bound while blocks are in flight or after a connection was cut).        *)
-(*                                                                         *)
-(* What the counters mean (doc comments of Stats in torrent_stats.go):     *)
-(*   Downloaded "number of bytes downloaded from swarm. Because some       *)
-(*              pieces may be downloaded more than once, this number may   *)
-(*              be greater than completed bytes"                           *)
-(*              => every payload byte of every piece message received      *)
-(*              (requested, unrequested, duplicate, end-game duplicate,    *)
-(*              of pieces that later fail the hash) + every byte fetched   *)
-(*              from a web seed for a delivered piece, each ONCE.          *)
-(*   Wasted     "Bytes downloaded due to duplicate/non-requested pieces"   *)
-(*              => a part of Downloaded: blocks that were not stored       *)
-(*              (duplicate, no/other piece downloader, invalid, peer       *)
-(*              already closed) + (what the code adds) the data of pieces  *)
-(*              discarded for hash failure and of web-seed pieces that     *)
-(*              arrive for a piece already complete.                       *)
-(*              NOT wasted (code and doc agree): blocks of partial pieces  *)
-(*              dropped at stop / disconnect / when another source wins    *)
-(*              the end-game.                                              *)
-(*   Uploaded   payload bytes of piece messages written to peers' sockets. *)
-(*   Completed  sum of the lengths (padding included, like Total) of the   *)
-(*              pieces in the bitfield; Incomplete = Total - Completed.    *)
-(*   SeededFor  "Duration while the torrent is in Seeding status", sampled *)
-(*              by a 1 s ticker and by every Stats() call.                 *)
-(* Persistence: the four counters are written by the periodic resume write *)
-(* (Config.ResumeWriteInterval) and by Session.Close - NOT at Torrent.Stop *)
-(* - and are added to fresh zero counters at load.                         *)
-(*                                                                         *)
-(* PART 2: the algorithm of the code as a state machine over abstract      *)
-(* units (1 unit = 1 block; a piece has NB units of which PAD[p] are       *)
-(* padding that is never transferred), run against PART 1.  FIX selects    *)
-(* repairs; FIX = {} is the code as it is.                                 *)
+(* X07 - byte and piece accounting: PART 2, the algorithm of the code as a *)
+(* state machine run against the obligations of StatsObs (PART 1, which    *)
+(* also documents the meaning of the counters).                            *)
+(* Units: 1 unit = 1 block; a piece has NB units of which PAD[p] are       *)
+(* padding that is never transferred.  FIX selects repairs; FIX = {} is    *)
+(* the code as it is.  `av` = tags violated by the last step.              *)
 (***************************************************************************)
-EXTENDS Integers, Sequences, FiniteSets, TLC
+EXTENDS StatsObs
 
-Tag(c, t) == IF c THEN {t} ELSE {}
-Max(a, b) == IF a > b THEN a ELSE b
-Min(a, b) == IF a < b THEN a ELSE b
-
-RECURSIVE SumOver(_, _)
-SumOver(S, f) == IF S = {} THEN 0 ELSE LET x == CHOOSE y \in S : TRUE IN f[x] + SumOver(S \ {x}, f)
-
-(***************************************************************************)
-(* PART 1 - obligations                                                    *)
-(*   lo, hi : [dl, ul, wa]   bounds from ground truth (base value at load  *)
-(*                           included)                                     *)
-(*   r      : the report     [dl, ul, wa, ...]                             *)
-(*   q      : TRUE at a quiescent point (lower bounds are due only there)  *)
-(***************************************************************************)
-\* @obligation X07.a  conservation: Downloaded = payload received (+ web-seed bytes), each byte once
-\* @obligation X07.c  ... in particular end-game duplicates and re-requested blocks are counted once per wire message
-DlViols(lo, hi, r, q) == Tag(r.dl > hi.dl \/ (q /\ r.dl < lo.dl), "X07.a.dl")
-\* @obligation X07.a  Wasted = blocks not stored + data of pieces discarded for hash failure
-WaViols(lo, hi, r, q) == Tag(r.wa > hi.wa \/ (q /\ r.wa < lo.wa), "X07.a.wa")
-\* @obligation X07.a  Uploaded = payload bytes written to peers' sockets in piece messages
-UlViols(lo, hi, r, q) == Tag(r.ul > hi.ul \/ (q /\ r.ul < lo.ul), "X07.a.ul")
-\* @obligation X07.a  wasted bytes are downloaded bytes
-SubViols(r) == Tag(r.wa > r.dl, "X07.a.sub")
-\* @obligation X07.a  useful bytes: what was downloaded and not wasted covers the data of the pieces gained by download
-\*                    (dl0, wa0: the counters when this session loaded the torrent; gain: data bytes of pieces gained since)
-UseViols(r, dl0, wa0, gain) == Tag((r.dl - dl0) - (r.wa - wa0) < gain, "X07.a.use")
-\* @obligation X07.a  Completed = sum of piece lengths of the verified pieces; Completed + Incomplete = Total; Have + Missing = Total pieces
-\* @obligation X07.c  a piece obtained from two sources is counted once
-PieceViols(r, plen, haveSet) ==
-    Tag(r.completed + r.incomplete # r.total \/ r.completed < 0 \/ r.incomplete < 0, "X07.a.bytes.sum")
-    \cup Tag(r.completed # SumOver(haveSet, plen), "X07.a.bytes.completed")
-    \cup Tag(r.have + r.missing # r.np \/ r.have # Cardinality(haveSet), "X07.a.pieces")
-\* @obligation X07.b  the persistent counters never decrease (floor = previous report of this session, or what is known to be persisted)
-MonoViols(r, floor) ==
-    Tag(r.dl < floor.dl, "X07.b.mono.dl") \cup Tag(r.ul < floor.ul, "X07.b.mono.ul")
-    \cup Tag(r.wa < floor.wa, "X07.b.mono.wa") \cup Tag(r.sf < floor.sf, "X07.b.mono.sf")
-
-(***************************************************************************)
-(* PART 2 - the algorithm                                                  *)
-(***************************************************************************)
 CONSTANTS NP,        \* pieces
           NB,        \* units per piece (padding included)
           PAD,       \* <<padding units of piece 1, ...>>
           NSRC,      \* peers that upload to the client
           WS,        \* TRUE: one web seed
-          FIX,       \* subset of {"late", "pad", "close", "seed"}; {} = the code as it is
+          FIX,       \* subset of {"late", "pad", "close", "seed", "tick"}; {} = the code as it is
           MUT,       \* "none" or a deliberate mutation (sanity of the envelope itself)
           IGNORE,    \* tags not reported in av
-          RXMAX, NFAIL, NCRASH, NCLOSE, NSTOP, NUP, NINV, NLATE,
-          TMAX, PERIOD, SEEDTOL
+          RXMAX, NJUNK, NWRITE, NFAIL, NCRASH, NCLOSE, NSTOP, NUP, NINV, NLATE,
+          TMAX, PERIOD, LATE, SEEDTOL
 
 Piece == 1 .. NP
 Src == 1 .. NSRC
@@ -129,10 +49,11 @@ VARIABLES
     ST,       \* session-level truth [rx (peers only), tx]
     bud,      \* remaining budgets
     now, due, upd, seedT, cycles,   \* time: clock, ticker due, seedDurationUpdatedAt (-1 = zero), truth, stop->start cycles
+    tickAt,   \* the time carried by the pending tick (the time at which the ticker fired; the loop may handle it up to LATE later)
     clean,    \* how the session went down: TRUE = Close completed
     av        \* tags violated by the last step
 
-vars == <<phase, st, have, disk, cnt, alive, pd, got, late, wr, ulq, c, ps, b, T, sess, ST, bud, now, due, upd, seedT, cycles, clean, av>>
+vars == <<phase, st, have, disk, cnt, alive, pd, got, late, wr, ulq, c, ps, b, T, sess, ST, bud, now, due, upd, seedT, cycles, tickAt, clean, av>>
 
 Fixed(x) == x \in FIX
 
@@ -164,20 +85,22 @@ Init ==
     /\ alive = [s \in Src |-> TRUE] /\ pd = [s \in Src |-> 0] /\ got = [s \in Src |-> {}] /\ late = [s \in Src |-> 0]
     /\ wr = NoWrite /\ ulq = 0
     /\ c = Z4 /\ ps = Z4 /\ b = Z4 /\ T = ZT /\ sess = [dl |-> 0, ul |-> 0] /\ ST = [rx |-> 0, tx |-> 0]
-    /\ bud = [rx |-> RXMAX, fail |-> NFAIL, crash |-> NCRASH, close |-> NCLOSE, stop |-> NSTOP, up |-> NUP, inv |-> NINV, late |-> NLATE]
-    /\ now = 0 /\ due = FALSE /\ upd = -1 /\ seedT = 0 /\ cycles = 0 /\ clean = FALSE
+    /\ bud = [rx |-> RXMAX, junk |-> NJUNK, write |-> NWRITE, fail |-> NFAIL, crash |-> NCRASH, close |-> NCLOSE, stop |-> NSTOP, up |-> NUP, inv |-> NINV, late |-> NLATE]
+    /\ now = 0 /\ due = FALSE /\ upd = -1 /\ seedT = 0 /\ cycles = 0 /\ tickAt = -1 /\ clean = FALSE
     /\ av = {}
 
 Running == phase \in {"open", "closing"} /\ st # "X"
-TimeVars == <<now, due, upd, seedT, cycles>>
-Judge == av' = StateViols(c', T', b', have', disk', cnt', ulq', sess', ST', seedT', cycles')
-                \cup MonoViols(c', c) \ IGNORE
+TimeVars == <<now, due, upd, seedT, cycles, tickAt>>
+Judge == av' = (StateViols(c', T', b', have', disk', cnt', ulq', sess', ST', seedT', cycles')
+                \cup MonoViols(c', c)) \ IGNORE
 
-\* updateSeedDuration(now) applied to (status, upd, sf)
-SeedUpd(status, u, sf) ==
+\* updateSeedDuration(tm) applied to (status, upd, sf).  As is, the difference is added whatever its sign:
+\* a tick carries the time at which it fired and may be handled after a Stats() call that used a later time.
+SeedUpdAt(status, u, sf, tm) ==
     IF status # "S" THEN [u |-> -1, sf |-> sf]
-    ELSE IF u = -1 THEN [u |-> now, sf |-> sf]
-    ELSE [u |-> now, sf |-> sf + (now - u)]
+    ELSE IF u = -1 THEN [u |-> tm, sf |-> sf]
+    ELSE [u |-> tm, sf |-> sf + (tm - u)]
+SeedUpd(status, u, sf) == SeedUpdAt(status, u, sf, now)
 
 \* -------------------------------------------------------------- download from peers
 Wanted == Piece \ (have \cup (IF wr.p # 0 /\ ~wr.stale THEN {wr.p} ELSE {}))
@@ -189,17 +112,21 @@ Pick(s) ==
     /\ UNCHANGED <<phase, st, have, disk, cnt, alive, late, wr, ulq, c, ps, b, T, sess, ST, bud, clean>> /\ UNCHANGED TimeVars
     /\ Judge
 
-\* handlePieceMessage for an open peer: block bl of piece p arrives from peer s (requested or not: the environment is free;
-\* a choke without the fast extension re-queues pending requests, the peer may answer both - that is a second arrival)
+\* handlePieceMessage for an open peer: block bl of piece p arrives from peer s.  A requested block is the next missing
+\* block of the peer's current piece (the order of honest answers does not matter for the accounting); anything else
+\* (duplicate - e.g. the second answer after a choke without the fast extension re-queued a pending request -, a block
+\* of another piece, a block when no piece is being downloaded) is junk and limited by a budget.
+NextBlock(s) == CHOOSE x \in Blocks(pd[s]) \ got[s] : \A y \in Blocks(pd[s]) \ got[s] : x <= y
 Recv(s, p, bl) ==
     /\ Running /\ alive[s] /\ wr.p = 0 /\ bud.rx > 0
-    /\ bud' = [bud EXCEPT !.rx = @ - 1]
-    /\ ST' = [ST EXCEPT !.rx = @ + 1] /\ sess' = [sess EXCEPT !.dl = @ + 1]
     /\ LET stored == pd[s] = p /\ bl \notin got[s]
            g2 == got[s] \cup {bl}
            done == stored /\ g2 = Blocks(p)
            okset == IF bud.fail > 0 THEN BOOLEAN ELSE {TRUE}
-       IN /\ T' = [T EXCEPT !.rx = @ + 1, !.junk = IF stored THEN @ ELSE @ + 1]
+       IN /\ IF stored THEN bl = NextBlock(s) ELSE bud.junk > 0
+          /\ bud' = [bud EXCEPT !.rx = @ - 1, !.junk = IF stored THEN @ ELSE @ - 1]
+          /\ ST' = [ST EXCEPT !.rx = @ + 1] /\ sess' = [sess EXCEPT !.dl = @ + 1]
+          /\ T' = [T EXCEPT !.rx = @ + 1, !.junk = IF stored THEN @ ELSE @ + 1]
           /\ c' = [c EXCEPT !.dl = @ + 1,
                             !.wa = IF stored \/ MUT = "nowaste" THEN @ ELSE @ + 1]
           /\ IF done
@@ -281,7 +208,7 @@ WriteDone ==
                /\ upd' = IF have' = Piece THEN su.u ELSE upd
                /\ c' = IF MUT = "prehash" THEN [c EXCEPT !.dl = @ + Data(p)] ELSE c
             /\ UNCHANGED <<alive, late, bud>>
-    /\ UNCHANGED <<phase, ulq, ps, b, sess, ST, clean, now, due, seedT, cycles>>
+    /\ UNCHANGED <<phase, ulq, ps, b, sess, ST, clean, now, due, seedT, cycles, tickAt>>
     /\ Judge
 
 \* -------------------------------------------------------------- upload
@@ -312,7 +239,7 @@ Stop ==
     /\ IF Fixed("seed")
        THEN LET su == SeedUpd(st, upd, c.sf) IN c' = [c EXCEPT !.sf = su.sf] /\ upd' = -1
        ELSE c' = c /\ upd' = upd
-    /\ UNCHANGED <<phase, have, disk, cnt, ps, b, sess, ST, clean, now, due, seedT, cycles>>
+    /\ UNCHANGED <<phase, have, disk, cnt, ps, b, sess, ST, clean, now, due, seedT, cycles, tickAt>>
     /\ Judge
 
 Start ==
@@ -320,15 +247,15 @@ Start ==
     /\ st' = IF have = Piece THEN "S" ELSE "D"
     /\ alive' = [s \in Src |-> TRUE]
     /\ cycles' = cycles + 1
-    /\ UNCHANGED <<phase, have, disk, cnt, pd, got, late, wr, ulq, c, ps, b, T, sess, ST, bud, clean, now, due, upd, seedT>>
+    /\ UNCHANGED <<phase, have, disk, cnt, pd, got, late, wr, ulq, c, ps, b, T, sess, ST, bud, clean, now, due, upd, seedT, tickAt>>
     /\ Judge
 
 \* -------------------------------------------------------------- persistence
 \* Session.updateStats: periodic (ticker of ResumeWriteInterval)
 ResumeWrite ==
-    /\ phase = "open" /\ ps # c
-    /\ ps' = c
-    /\ UNCHANGED <<phase, st, have, disk, cnt, alive, pd, got, late, wr, ulq, c, b, T, sess, ST, bud, clean>> /\ UNCHANGED TimeVars
+    /\ phase = "open" /\ ps # c /\ bud.write > 0
+    /\ ps' = c /\ bud' = [bud EXCEPT !.write = @ - 1]
+    /\ UNCHANGED <<phase, st, have, disk, cnt, alive, pd, got, late, wr, ulq, c, b, T, sess, ST, clean>> /\ UNCHANGED TimeVars
     /\ Judge
 
 \* Session.Close, step 1: updateStats() - the torrents are still running.  "close": written when they have stopped.
@@ -362,26 +289,28 @@ Reload ==
     /\ c' = IF MUT = "dbl" THEN [dl |-> ps.dl + ps.dl, ul |-> ps.ul + ps.ul, wa |-> ps.wa + ps.wa, sf |-> ps.sf + ps.sf] ELSE ps
     /\ b' = ps /\ T' = ZT /\ sess' = [dl |-> 0, ul |-> 0] /\ ST' = [rx |-> 0, tx |-> 0]
     /\ wr' = NoWrite /\ ulq' = 0 /\ cnt' = [p \in Piece |-> 0]
-    /\ alive' = [s \in Src |-> st # "X"] /\ upd' = -1 /\ seedT' = 0 /\ cycles' = 0
+    /\ alive' = [s \in Src |-> st # "X"] /\ upd' = -1 /\ seedT' = 0 /\ cycles' = 0 /\ due' = FALSE /\ tickAt' = -1
     /\ av' = (StateViols(c', T', b', have, disk, cnt', 0, sess', ST', 0, 0)
               \cup Tag(\E x \in {"dl", "ul", "wa", "sf"} : c'[x] < ps[x], "X07.b.floor")
               \cup Tag(clean /\ c' # c, "X07.b.clean")) \ IGNORE
-    /\ UNCHANGED <<st, have, disk, pd, got, late, ps, bud, clean, now, due>>
+    /\ UNCHANGED <<st, have, disk, pd, got, late, ps, bud, clean, now>>
 
 \* -------------------------------------------------------------- time and SeededFor
 Time ==
-    /\ phase = "open" /\ now < TMAX /\ ~due
-    /\ now' = now + 1 /\ due' = ((now + 1) % PERIOD = 0)
+    /\ phase = "open" /\ now < TMAX /\ (due => now < tickAt + LATE)
+    /\ now' = now + 1 /\ due' = (due \/ (now + 1) % PERIOD = 0)
+    /\ tickAt' = IF ~due /\ (now + 1) % PERIOD = 0 THEN now + 1 ELSE tickAt
     /\ seedT' = IF st = "S" THEN seedT + 1 ELSE seedT
     /\ UNCHANGED <<phase, st, have, disk, cnt, alive, pd, got, late, wr, ulq, c, ps, b, T, sess, ST, bud, clean, upd, cycles>>
     /\ Judge
 \* seedDurationTicker (clears due) or a Stats() call (any time)
 SeedTick(ticker) ==
     /\ phase = "open" /\ TMAX > 0 /\ (ticker => due)
-    /\ LET su == SeedUpd(st, upd, c.sf) IN
+    /\ LET su == SeedUpdAt(st, upd, c.sf, IF ticker /\ ~Fixed("tick") THEN tickAt ELSE now) IN     \* "tick": the loop reads the clock itself
        /\ upd' = su.u /\ c' = [c EXCEPT !.sf = su.sf]
        /\ (upd' # upd \/ c' # c \/ ticker)
     /\ due' = IF ticker THEN FALSE ELSE due
+    /\ tickAt' = IF ticker THEN -1 ELSE tickAt
     /\ UNCHANGED <<phase, st, have, disk, cnt, alive, pd, got, late, wr, ulq, ps, b, T, sess, ST, bud, clean, now, seedT, cycles>>
     /\ Judge
 
@@ -400,10 +329,10 @@ Conforms == av = {}
 TypeOK ==
     /\ phase \in {"open", "closing", "down"} /\ st \in {"D", "S", "X"}
     /\ have \subseteq Piece /\ disk \subseteq Piece
-    /\ \A x \in {"dl", "ul", "wa", "sf"} : c[x] >= 0 /\ ps[x] >= 0
+    /\ \A x \in {"dl", "ul", "wa"} : c[x] >= 0 /\ ps[x] >= 0
     /\ ulq >= 0
 \* what is persisted was reported at some time: never ahead of the counters of the session that wrote it
-PersistedNotAhead == phase # "down" => \A x \in {"dl", "ul", "wa", "sf"} : ps[x] <= c[x] \/ MUT # "none"
+PersistedNotAhead == phase # "down" => \A x \in {"dl", "ul", "wa"} \cup (IF Fixed("tick") THEN {"sf"} ELSE {}) : ps[x] <= c[x] \/ MUT # "none"
 Inv == TypeOK /\ Conforms /\ PersistedNotAhead
-View == <<phase, st, have, disk, cnt, alive, pd, got, late, wr, ulq, c, ps, b, T, sess, ST, bud, now, due, upd, seedT, cycles, clean>>
+View == <<phase, st, have, disk, cnt, alive, pd, got, late, wr, ulq, c, ps, b, T, sess, ST, bud, now, due, upd, seedT, cycles, tickAt, clean>>
 =============================================================================
